@@ -15,7 +15,8 @@ RULE = ("program shapes: failing comparison before/after other sites; exception 
         "(TypeError of the values, __eq__ that raises, values that cannot be copied); sub-snapshot keys accessed but never "
         "compared; mixed operations; layout variants of the container end; each x 16 approved sets through Example.run_inline "
         "and a slice through real pytest sessions; pairs of shapes in one file (thorough: all pairs); non-trivial = the session "
-        "had at least one pending change or a raising test and still finished; distinct = (shape(s), approved set, driver)")
+        "had at least one pending change or a raising test and still finished; distinct = (shape(s), approved set, driver)"
+        "; plus sessions started outside the project, the same data outsourced at several sites / files, star-expressions in never-compared snapshots")
 ASSUMPTIONS = ["`in` only on list displays and s[k] only on dict displays (documented usage)"]
 CATS = ("create", "fix", "trim", "update")
 FS = [list(c) for n in range(5) for c in itertools.combinations(CATS, n)]
